@@ -237,10 +237,17 @@ func checkC03(p *Program, r *Result) {
 	}
 	// ---- c: chunk sort keys (parseSummarySection) vs trigger (NextInto)
 	sortKey := map[int][2]string{}
-	for _, ci := range callsIn(ps, func(ci ssa.CallInstruction) bool {
-		n := staticCalleeName(ci.Common())
-		return stableSorts[n] || unstableSorts[n]
-	}) {
+	var sortSites []ssa.CallInstruction
+	for _, m := range methodsOf(p, pkgMcap, "indexedMessageIterator") {
+		if m.Blocks == nil {
+			continue
+		}
+		sortSites = append(sortSites, callsIn(m, func(ci ssa.CallInstruction) bool {
+			n := staticCalleeName(ci.Common())
+			return stableSorts[n] || unstableSorts[n]
+		})...)
+	}
+	for _, ci := range sortSites {
 		args := ci.Common().Args
 		onChunks := false
 		for _, o := range oc.origins(args[0]) {
